@@ -7,9 +7,11 @@ the partial list operations of Python (`l[-1]`, `l.pop()`, `l[i]`).  Core Lean o
 namespace Py
 
 /-- Exception classes.  `internal` = `TypeError` / `AttributeError` (what the properties call an internal error);
-    `fuel` is not a Python exception: it is the exhaustion of the bound of a translated `while` loop. -/
+    `fuel` is not a Python exception: it is the exhaustion of the bound of a translated `while` loop;
+    `alias` is not one either: an object was reached through a local that the profile declares an alias of the last
+    element of a list (`alias_last`) after the list had been changed in another way (see `Alias`). -/
 inductive Err where
-  | syntax | value | lookup | runtime | internal | fuel
+  | syntax | value | lookup | runtime | internal | fuel | alias
 deriving DecidableEq, Repr
 
 abbrev M := Except Err
@@ -53,6 +55,44 @@ def deref {α : Type} (o : Option α) : M α :=
 
 /-- `list(enumerate(l))` -/
 def enumerate {α : Type} (l : List α) : List (Nat × α) := l.zipIdx.map (fun p => (p.2, p.1))
+
+/-! ## `alias_last`: a local that is a second reference to the object a list was last extended with
+
+The code binds `x` only by `x = None` or by the pair `x = C(...); l.append(x)` and afterwards reads and writes
+attributes of `x`.  The translated code keeps the object in the list only; `x` becomes a three-valued mark. -/
+
+/-- what the local refers to: nothing (`None`), the last element of the list, or an object that need not be the
+    last element of the list any more (the list was popped / extended / rebound since the pair was executed) -/
+inductive Alias where
+  | none | live | stale
+deriving DecidableEq, Repr
+
+instance : Inhabited Alias := ⟨.none⟩
+
+/-- any other change of the list: a reference to an object stays one, but it no longer tracks the last element -/
+def Alias.detach : Alias → Alias
+  | .none => .none
+  | _ => .stale
+
+/-- the object behind `x` in `x.attr` (list that grows at its end); `None.attr` is an `AttributeError` -/
+def aliasLast {α : Type} (a : Alias) (l : List α) : M α :=
+  match a with
+  | .none => .error .internal
+  | .stale => .error .alias
+  | .live => last l
+
+/-- the same for a list kept as a stack (top at the head) -/
+def aliasTop {α : Type} (a : Alias) (l : List α) : M α :=
+  match a with
+  | .none => .error .internal
+  | .stale => .error .alias
+  | .live => top l
+
+/-- `x.attr = …` through a live alias: replace the last element -/
+def setLast {α : Type} (l : List α) (v : α) : List α := l.dropLast ++ [v]
+
+/-- the same for a list kept as a stack -/
+def setTop {α : Type} (l : List α) (v : α) : List α := v :: l.tail
 
 @[simp] theorem top_cons {α : Type} (x : α) (l : List α) : top (x :: l) = .ok x := rfl
 @[simp] theorem top_nil {α : Type} : top ([] : List α) = .error .lookup := rfl
